@@ -20,6 +20,8 @@ var c18HTMLTokens = []string{
 	"<script>", "</script>", "<ScRiPt ", "<style>", "</style>", "<iframe src=x>", "<object>", "<form>", "<svg>", "<math>", "<textarea>",
 	"<title>", "<noscript>", "<!--", "-->", "<a href=\"", "javascript:x", "jav&#x09;ascript:x", "\" onclick=\"x", "'", "\"", ">", "<",
 	"<p style=\"", "style='", "&lt;", "&#60;", "x", "\x00", "position:fixed;",
+	// white space between the attribute name and '=' (legal HTML)
+	"<p style =\"", "<p STYLE\n= '",
 }
 
 var c18CSSTokens = []string{"color", "position", "w\\69 dth", ":", ";", "red", "url(javascript:x)", "/*", "*/", "\"", "'", "@import", "{", "}", "\\", "!important", " ", "&#59 ", "&#x3a;"}
